@@ -118,7 +118,11 @@ func init() {
 		"unicode/utf8.DecodeRuneInString":           extDecodeRune,
 		"unicode/utf8.DecodeRune":                   extDecodeRune,
 
-		// os
+		// os / syscall start-up
+		"syscall.runtime_envs": func(fr *frame, a []value) value { return []value{} },
+		"os.runtime_args":      func(fr *frame, a []value) value { return []value{"gosym"} },
+		"os.NewFile":           extOsNewFile,
+		"os.Getpagesize":       func(fr *frame, a []value) value { return 4096 },
 		"os.Getenv":    extGetenv,
 		"os.LookupEnv": extLookupEnv,
 		"os.Exit":      func(fr *frame, a []value) value { panic(targetRuntimeError("os.Exit called")) },
@@ -741,3 +745,17 @@ func extAVCas(fr *frame, a []value) value {
 
 var _ = strings.HasPrefix
 var _ = unsafe.Pointer(nil)
+
+// os.NewFile: an opaque *os.File (never read or written by the engine: all
+// output functions are stubs)
+func extOsNewFile(fr *frame, a []value) value {
+	m := fr.i
+	p := m.prog.ImportedPackage("os")
+	if p == nil {
+		return (*value)(nil)
+	}
+	t := p.Type("File").Type()
+	cell := new(value)
+	*cell = zero(t)
+	return cell
+}
